@@ -101,6 +101,7 @@ def run(tier):
     p25, _ = c03worker.tz2025b(True)
     srcs["tz2025b"] = p25
     srcs["features"] = c03worker.features()
+    srcs["unsupported"] = c03worker.unsupported()
     if not q:
         for i in range(6):
             mq, desc, base, sy, uy = c03worker.mutant(seed + 77, i)
@@ -285,6 +286,19 @@ def run(tier):
     if not bz <= xz:
         v.violation("c20:basic-zone-not-in-extended", "a zone emitted in basic scope is not emitted in extended scope", {"zones": sorted(bz - xz)[:6]})
     counters["basic_zones"], counters["extended_zones"] = len(bz), len(xz)
+    # the same inclusion on the hand-written sources (constructs one scope supports and the other does not) and on the shipped lines
+    for other in ("features", "unsupported", "recon-x"):
+        try:
+            ob = set(tzpipe.compile_source(indirs[other], "basic", 2000, 2050).tzdb["zones_map"])
+            ox = set(tzpipe.compile_source(indirs[other], "extended", 2000, 2050).tzdb["zones_map"])
+        except tzpipe.CompilerDied as e:
+            v.inconclusive_because("source %s could not be compiled in both scopes (C03 judges that): %s" % (other, repr(e.exc)[:200]))
+            continue
+        counters["basic_subset_programs"] = counters.get("basic_subset_programs", 0) + 1
+        counters["basic_subset_zones_checked"] = counters.get("basic_subset_zones_checked", 0) + len(ob)
+        if not ob <= ox:
+            v.violation("c20:basic-zone-not-in-extended", "a zone emitted in basic scope is not emitted in extended scope",
+                        {"program": other, "zones": sorted(ob - ox)[:6]})
     # identical behaviour: sweep basic zones with the extended processor alongside (zones with a truncation note excepted)
     segs = c03lib.zic_segments(p, work / "zic20", selfcheck_zones=None)
     judged = [z for z in sorted(bz) if not c03lib.truncation_noted(comps["basic"].tzdb, z) and not c03lib.truncation_noted(comps["extended"].tzdb, z)]
